@@ -11,7 +11,8 @@ From GV Require Import Base.Outcome Base.AMap Model.GState Model.Creation Model.
 From GV Require Import Proofs.AMapOk Proofs.WFDefs Proofs.WFNode Proofs.QueryOk Proofs.DegreeOk
      Proofs.PartitionOk Proofs.LouvainOk Proofs.MoveGainOk Proofs.AggregationOk
      Proofs.LouvainSets Proofs.LouvainStructOk Proofs.LouvainNumOk Proofs.LouvainTermOk
-     Proofs.LouvainLevelOk Proofs.LouvainGenGraphOk Proofs.LouvainAggOk Proofs.LouvainConvertOk.
+     Proofs.LouvainLevelOk Proofs.LouvainGenGraphOk Proofs.LouvainAggOk Proofs.LouvainConvertOk
+     Proofs.LouvainLevelsOk Proofs.LouvainNoFuelOk.
 Import ListNotations.
 Open Scope Q_scope.
 
@@ -43,3 +44,192 @@ Lemma total_w_nonneg : forall es : list wedgeN, (forall w, In w es -> 0 <= ww w)
 Proof.
   intros es H. rewrite total_w_wsel. apply wsel_nonneg. exact H.
 Qed.
+
+(* ---------------- the invariant of the level loop ---------------- *)
+Record LInv (es0 : list wedgeN) (dir0 : bool) (orig : list nat) (gk : lgraph) (nk : nat)
+            (P I : list (list nat)) : Prop := mkLI {
+  li_lg : LevelGraph gk nk;
+  li_dir : directed (sp gk) = dir0;
+  li_fa : Faithful es0 gk nk;
+  li_ao : AttrOk orig (seq 0 nk) (attr_of gk);
+  li_pi : PIok (seq 0 nk) (attr_of gk) P I
+}.
+
+Lemma PIok_range : forall names attr P I, PIok names attr P I -> forall c i, In c I -> In i c -> In i names.
+Proof. intros names attr P I H c i Hc Hi. apply (pi_cover _ _ _ _ H). exists c. split; assumption. Qed.
+
+(* the level partition P and the inner partition I describe the same family on the base graph *)
+Lemma expand_aligned : forall attr P I, Forall2 (aligned attr) P I ->
+  Forall2 (fun a b => forall x, In x a <-> In x b) (map (expand attr) I) P.
+Proof.
+  intros attr P I H. induction H as [|p l P' I' Hpl _ IH]; [constructor|]. cbn [map]. constructor; [|exact IH].
+  destruct Hpl as [_ [_ [_ Hx]]]. intro x. rewrite In_expand. symmetry. apply Hx.
+Qed.
+
+Section Loop.
+  Variable es0 : list wedgeN.
+  Variable dir0 : bool.
+  Variable orig : list nat.
+  Variables m res : Q.
+  Hypothesis Hm0 : m == total_w es0.
+  Hypothesis Hmpos : 0 <= m.
+  Hypothesis Hres : 0 <= res.
+
+  Notation Qm := (newman Nat.eqb dir0 es0 res).
+
+  Lemma LInv_Qm : forall gk nk P I, LInv es0 dir0 orig gk nk P I ->
+    Qm P == newman Nat.eqb dir0 (wedges gk) res I.
+  Proof.
+    intros gk nk P I [LG Hd [_ HF] _ HPI]. rewrite <- Hd. rewrite (HF res I).
+    - rewrite Hd. symmetry. apply newman_ext. apply expand_aligned. apply (pi_al _ _ _ _ HPI).
+    - intros c i Hc Hi. pose proof (PIok_range _ _ _ _ HPI c i Hc Hi) as H. apply in_seq in H. lia.
+  Qed.
+
+  Lemma LInv_m : forall gk nk P I, LInv es0 dir0 orig gk nk P I -> m == total_w (wedges gk).
+  Proof. intros gk nk P I [_ _ [Ht _] _ _]. rewrite Ht. exact Hm0. Qed.
+
+  (* one aggregation step + one local-moving phase *)
+  Lemma LInv_step : forall gk nk P I g2 sf perms p2 i2 imp tie2,
+    LInv es0 dir0 orig gk nk P I ->
+    generate_graph gk I = Ok g2 ->
+    compute_one_level sf g2 m P res perms = Ok (p2, i2, imp, tie2) ->
+    LInv es0 dir0 orig g2 (length I) p2 i2 /\ Qm P <= Qm p2 /\ (imp = true -> (length i2 < length I)%nat).
+  Proof.
+    intros gk nk P I g2 sf perms p2 i2 imp tie2 HL Hg2 Hc. pose proof HL as [LG Hd HF AO HPI].
+    destruct (generate_graph_struct gk I g2 Hg2) as [W2 [Hn2 [Hsp2 Hat2]]].
+    pose proof (pi_al _ _ _ _ HPI) as Hal.
+    assert (Hlen : length P = length I) by (eapply F2_length; exact Hal).
+    assert (Hlv : level_ok orig P) by (eapply PIok_level_ok; eassumption).
+    assert (Hpa : forall c p, nth_error P c = Some p ->
+                  NoDup p /\ NoDup (attr_of g2 c) /\ forall x, In x p <-> In x (attr_of g2 c)).
+    { intros c p Hp. destruct (nth_error I c) as [l|] eqn:El.
+      - destruct (Forall2_nth_inv _ _ _ Hal c p l Hp El) as [Hndp [_ [_ Hpx]]].
+        destruct (Hat2 c l El) as [Hnda Hax]. split; [exact Hndp|]. split; [exact Hnda|].
+        intro x. rewrite Hpx, Hax. reflexivity.
+      - apply nth_error_None in El. assert ((c < length P)%nat) by (apply nth_error_Some; congruence). lia. }
+    assert (AO2 : AttrOk orig (seq 0 (length I)) (attr_of g2)).
+    { apply (AttrOk_of_level orig P); [exact Hlv | exact Hlen |].
+      intros i p Hp. destruct (Hpa i p Hp) as [_ [Hnd Hx]]. split; [exact Hnd|]. intro x. symmetry. apply Hx. }
+    assert (Hw2 : forall e, In e (get_all_edges g2) -> exists z, ew e = Some z /\ (0 <= z)%Z).
+    { apply (generate_graph_weights gk I g2 (lg_wf gk nk LG) Hg2). apply (lg_real gk nk LG). }
+    assert (LG2 : LevelGraph g2 (length I)).
+    { constructor.
+      - exact W2.
+      - rewrite Hsp2. cbn [multi]. apply (lg_single gk nk LG).
+      - rewrite Hn2. apply Permutation_refl.
+      - exact Hw2.
+      - apply (ao_disj _ _ _ AO2). }
+    assert (Hd2 : directed (sp g2) = dir0) by (rewrite Hsp2; cbn [directed]; exact Hd).
+    assert (HF2 : Faithful es0 g2 (length I)).
+    { apply (Faithful_step es0 gk nk I g2 LG HF (pi_disj _ _ _ _ HPI) (pi_cover _ _ _ _ HPI) Hg2).
+      intros e He. destruct (Hw2 e He) as [z [Hz _]]. eauto. }
+    assert (Hstart : forall c p, nth_error P c = Some p -> NoDup p /\ forall x, In x p <-> In x (attr_of g2 c)).
+    { intros c p Hp. destruct (Hpa c p Hp) as [Hnd [_ Hx]]. split; assumption. }
+    destruct (compute_one_level_struct sf g2 m P res perms (length I) orig p2 i2 imp tie2) as [HPI2 [Hlv2 Hco]];
+      try assumption.
+    { rewrite Hn2. apply Permutation_refl. }
+    assert (HL2 : LInv es0 dir0 orig g2 (length I) p2 i2) by (constructor; assumption).
+    split; [exact HL2|]. split.
+    - (* modularity does not decrease *)
+      assert (Hm2 : m == total_w (wedges g2)) by (destruct HF2 as [Ht _]; rewrite Ht; exact Hm0).
+      pose proof (level_result_ge_singletons_newman g2 (length I) LG2 m res Hmpos Hres sf P perms p2 i2 imp tie2
+                    Hm2 Hlen Hstart Hc) as Hge.
+      rewrite Hd2 in Hge. rewrite (LInv_Qm g2 (length I) p2 i2 HL2).
+      eapply Qle_trans; [|exact Hge]. apply Qle_lteq. right.
+      destruct HF2 as [_ HF2]. rewrite <- Hd2. rewrite (HF2 res (map (fun k => [k]) (seq 0 (length I)))).
+      + rewrite Hd2. apply newman_ext. rewrite map_map. rewrite <- Hlen.
+        apply Forall2_nth; [rewrite map_length, seq_length; reflexivity|].
+        intros i p a Hp Ha. rewrite nth_error_map_seq in Ha. destruct (Nat.ltb i (length P)); [|discriminate].
+        inversion Ha. subst a. destruct (Hpa i p Hp) as [_ [_ Hx]]. intro x. rewrite Hx.
+        unfold expand. cbn [flat_map]. rewrite app_nil_r. reflexivity.
+      + intros c i Hc0 Hi. apply in_map_iff in Hc0. destruct Hc0 as [k [<- Hk]]. destruct Hi as [Hi|[]]. subst i.
+        apply in_seq in Hk. lia.
+    - intro Hi. subst imp.
+      apply (compute_one_level_shrinks g2 (lg_wf _ _ LG2) (lg_single _ _ LG2) (LG_real _ _ LG2) (length I) (LG_names _ _ LG2)
+               (LG_nonneg _ _ LG2) m res Hmpos Hres (lg_attr _ _ LG2) sf P perms p2 i2 tie2 Hlen Hstart Hc).
+  Qed.
+
+  (* ---- the `while improvement` loop: modularity never decreases from level to level ---- *)
+  Lemma level_loop_monotone :
+    forall fuel sf weighted thr perms gk nk partition inner md acc tie levels tie',
+      LInv es0 dir0 orig gk nk partition inner ->
+      chain (fun a b => Qm a <= Qm b) (acc ++ [partition]) ->
+      level_loop fuel sf weighted res thr perms m gk partition inner md acc tie = Ok (levels, tie') ->
+      chain (fun a b => Qm a <= Qm b) levels /\ exists rest, levels = (acc ++ [partition]) ++ rest.
+  Proof.
+    induction fuel as [|f IH]; intros sf weighted thr perms gk nk partition inner md acc tie levels tie' HL Hch H;
+      cbn [level_loop] in H; [discriminate|].
+    apply bind_ok in H. destruct H as [new_mod [_ H]].
+    destruct (gain_small new_mod md thr) as [small close]. destruct small.
+    { inversion H. subst levels tie'. split; [exact Hch | exists []; rewrite app_nil_r; reflexivity]. }
+    apply bind_ok in H. destruct H as [g2 [Hg2 H]].
+    apply bind_ok in H. destruct H as [[[[p2 i2] imp] tie2] [Hc H]].
+    destruct (LInv_step gk nk partition inner g2 sf perms p2 i2 imp tie2 HL Hg2 Hc) as [HL2 [Hle _]].
+    destruct imp.
+    - destruct (IH sf weighted thr perms g2 (length inner) p2 i2 new_mod (acc ++ [partition]) (tie || close || tie2)%bool levels tie' HL2) as [H1 [rest Hr]];
+        [apply chain_snoc; assumption | exact H |].
+      split; [exact H1|]. exists ([p2] ++ rest). rewrite Hr. rewrite <- !app_assoc. reflexivity.
+    - inversion H. subst levels tie'. split; [exact Hch | exists []; rewrite app_nil_r; reflexivity].
+  Qed.
+
+  (* ---- the loop never runs out of fuel when every phase has fuel for its n^n sweeps and the
+          loop itself has one unit of fuel per node ---- *)
+  Lemma pow_self_mono : forall a b, (a <= b)%nat -> (a ^ a <= b ^ b)%nat.
+  Proof.
+    intros a b H. destruct a as [|a].
+    { change (0 ^ 0)%nat with 1%nat. assert (Hb : (b ^ b <> 0)%nat).
+      { destruct b as [|b]; [cbn; lia | apply Nat.pow_nonzero; lia]. }
+      lia. }
+    apply Nat.le_trans with (S a ^ b)%nat; [apply Nat.pow_le_mono_r; lia | apply Nat.pow_le_mono_l; exact H].
+  Qed.
+
+  Lemma level_loop_never_out_of_fuel :
+    forall fuel sf weighted thr perms gk nk partition inner md acc tie N,
+      LInv es0 dir0 orig gk nk partition inner ->
+      (length inner < fuel)%nat -> (length inner <= N)%nat -> (N ^ N <= sf)%nat ->
+      level_loop fuel sf weighted res thr perms m gk partition inner md acc tie <> OutOfFuel.
+  Proof.
+    induction fuel as [|f IH]; intros sf weighted thr perms gk nk partition inner md acc tie N HL Hf HN Hsf; [lia|].
+    intro H. apply level_loop_fuel_cases in H.
+    destruct H as [new_mod [g2 [_ [_ [Hg2 Hcase]]]]].
+    pose proof HL as [LG Hd HF AO HPI].
+    (* the phase on g2 returns *)
+    assert (Hret : forall order, get_shuffled_node_names g2 perms = Ok order ->
+              exists p2 i2 imp tie2, compute_one_level sf g2 m partition res perms = Ok (p2, i2, imp, tie2)).
+    { intros order Hord.
+      destruct (generate_graph_struct gk inner g2 Hg2) as [W2 [Hn2 [Hsp2 Hat2]]].
+      (* reuse LInv_step's construction through a dummy run: rebuild the level-graph facts *)
+      pose proof (pi_al _ _ _ _ HPI) as Hal.
+      assert (Hlen : length partition = length inner) by (eapply F2_length; exact Hal).
+      assert (Hlv : level_ok orig partition) by (eapply PIok_level_ok; eassumption).
+      assert (Hpa : forall c p, nth_error partition c = Some p ->
+                  NoDup p /\ NoDup (attr_of g2 c) /\ forall x, In x p <-> In x (attr_of g2 c)).
+      { intros c p Hp. destruct (nth_error inner c) as [l|] eqn:El.
+        - destruct (Forall2_nth_inv _ _ _ Hal c p l Hp El) as [Hndp [_ [_ Hpx]]].
+          destruct (Hat2 c l El) as [Hnda Hax]. split; [exact Hndp|]. split; [exact Hnda|].
+          intro x. rewrite Hpx, Hax. reflexivity.
+        - apply nth_error_None in El. assert ((c < length partition)%nat) by (apply nth_error_Some; congruence). lia. }
+      assert (AO2 : AttrOk orig (seq 0 (length inner)) (attr_of g2)).
+      { apply (AttrOk_of_level orig partition); [exact Hlv | exact Hlen |].
+        intros i p Hp. destruct (Hpa i p Hp) as [_ [Hnd Hx]]. split; [exact Hnd|]. intro x. symmetry. apply Hx. }
+      assert (LG2 : LevelGraph g2 (length inner)).
+      { constructor.
+        - exact W2.
+        - rewrite Hsp2. cbn [multi]. apply (lg_single gk nk LG).
+        - rewrite Hn2. apply Permutation_refl.
+        - apply (generate_graph_weights gk inner g2 (lg_wf gk nk LG) Hg2). apply (lg_real gk nk LG).
+        - apply (ao_disj _ _ _ AO2). }
+      destruct (level_total g2 (length inner) LG2 m res Hmpos Hres sf partition perms order Hlen) as [p2 [i2 [imp [tie2 [Hc _]]]]].
+      - intros c p Hp. destruct (Hpa c p Hp) as [Hnd [_ Hx]]. split; assumption.
+      - exact Hord.
+      - apply Nat.le_trans with (N ^ N)%nat; [apply pow_self_mono; exact HN | exact Hsf].
+      - eauto. }
+    destruct Hcase as [Hoof|[p2 [i2 [tie2 [Hc Hrec]]]]].
+    - destruct (compute_one_level_fuel_only_from_sweeps _ _ _ _ _ _ Hoof) as [di [order [_ [Hord _]]]].
+      destruct (Hret order Hord) as [p2 [i2 [imp [tie2 Hc]]]]. congruence.
+    - destruct (LInv_step gk nk partition inner g2 sf perms p2 i2 true tie2 HL Hg2 Hc) as [HL2 [_ Hshr]].
+      specialize (Hshr eq_refl).
+      apply (IH sf weighted thr perms g2 (length inner) p2 i2 new_mod (acc ++ [partition])
+                (tie || snd (gain_small new_mod md thr) || tie2)%bool N HL2); [lia | lia | exact Hsf | exact Hrec].
+  Qed.
+End Loop.
